@@ -112,6 +112,11 @@ func tscenarios() []tscenario {
 	mk("client.Fetch", 1, 1, nil)
 	mk("client.Heartbeat", 12, 1, nil)
 	mk("client.Heartbeat/coordinator", 10, 1, nil)
+	mk("reader.fetch#1", 1, 1, nil)
+	mk("reader.fetch#2", 1, 2, nil)
+	mk("reader.fetch#3", 1, 3, nil)
+	mk("reader.listOffsets", 2, 1, nil)
+	mk("reader.metadata", 3, 1, nil)
 	mk("writer.WriteMessages", 0, 1, nil)
 	mk("writer.WriteMessages/metadata", 3, 1, nil)
 	return sc
@@ -194,6 +199,50 @@ func (s *tscenario) body(env *tenv) (string, string, string) {
 			_, err := cl.Heartbeat(ctx, &kafka.HeartbeatRequest{GroupID: "g", GenerationID: 1, MemberID: "m"})
 			return err
 		})(env)
+	case strings.HasPrefix(s.name, "reader."):
+		// kafka.Reader (Dialer/Conn path) over the same broker: 12 records, 4 per fetch response; the n-th fetch (or the
+		// list-offsets / metadata exchange of the dial) is cut.  Every record must arrive exactly once, in order.
+		for i := 6; i < 12; i++ {
+			env.b.Append(connfake.Msg{Key: "k", Value: fmt.Sprintf("seed%d", i)})
+		}
+		rd := kafka.NewReader(kafka.ReaderConfig{Brokers: []string{"broker:9092"}, Topic: ttopic, Partition: 0,
+			Dialer:   &kafka.Dialer{DialFunc: env.b.Dial, Timeout: 2 * time.Second, ClientID: "verif"},
+			MinBytes: 1, MaxBytes: 1 << 20, MaxWait: 50 * time.Millisecond, ReadBatchTimeout: 2 * time.Second,
+			ReadBackoffMin: time.Millisecond, ReadBackoffMax: 5 * time.Millisecond, MaxAttempts: 5, ReadLagInterval: -1})
+		var got []connfake.Msg
+		res := guard(10*time.Second, func() error {
+			if err := rd.SetOffset(0); err != nil {
+				return err
+			}
+			for len(got) < 12 {
+				ctx, cancel := ctx3()
+				m, err := rd.ReadMessage(ctx)
+				cancel()
+				if err != nil {
+					return err
+				}
+				got = append(got, connfake.Msg{Offset: m.Offset, Key: string(m.Key), Value: string(m.Value)})
+			}
+			return nil
+		})
+		go rd.Close()
+		data := "intact"
+		want := env.b.Log()
+		if res == "ok" {
+			for i := range got {
+				if i >= len(want) || got[i] != want[i] {
+					data = fmt.Sprintf("record-%d-is-%v", i, got[i])
+					break
+				}
+			}
+		} else {
+			data = fmt.Sprintf("delivered-%d-of-12", len(got))
+		}
+		first := "returned"
+		if res == "hang" {
+			first = "hang"
+		}
+		return first, res, data
 	case strings.HasPrefix(s.name, "writer.WriteMessages"):
 		w := &kafka.Writer{Addr: taddr, Topic: ttopic, Transport: env.tr, Balancer: &kafka.RoundRobin{}, BatchTimeout: time.Millisecond,
 			BatchSize: 1, MaxAttempts: 4, WriteBackoffMin: time.Millisecond, WriteBackoffMax: 5 * time.Millisecond, RequiredAcks: kafka.RequireAll}
@@ -277,26 +326,33 @@ func runT(s *tscenario, k int) (impl string, trace string, frameLen int) {
 	}
 	first, next, data := s.body(env)
 	conn := "-"
-	cutConn := 0
+	cutConn, cutSeq := 0, 0
 	for _, c := range env.b.Conns() {
 		if c.CutAt >= 0 {
-			cutConn = c.No
+			cutConn, cutSeq = c.No, c.Seqs[len(c.Seqs)-1]
 		}
 	}
 	if cutConn > 0 {
-		later := 0
+		// journal: requests of the same api key that ARRIVED after the cut one, and on which connection
+		later, onCut := 0, 0
 		for _, c := range env.b.Conns() {
-			if c.No > cutConn {
-				for _, key := range c.Keys {
-					if key == s.key {
+			for i, key := range c.Keys {
+				if key == s.key && c.Seqs[i] > cutSeq {
+					if c.No == cutConn {
+						onCut++
+					} else {
 						later++
 					}
 				}
 			}
 		}
-		conn = "new"
-		if later == 0 {
-			conn = "no-later-request-on-a-new-connection"
+		switch {
+		case onCut > 0:
+			conn = "reused"
+		case later == 0:
+			conn = "no-later-request"
+		default:
+			conn = "new"
 		}
 	}
 	done := make(chan struct{})
@@ -307,12 +363,16 @@ func runT(s *tscenario, k int) (impl string, trace string, frameLen int) {
 	}
 	time.Sleep(time.Millisecond)
 	evs := kafka.VerifStop()
-	return fmt.Sprintf("%s %s %s %s", first, next, conn, data), eventsString(evs), env.b.LastFrameLen(s.key)
+	return fmt.Sprintf("%s %s %s %s", first, next, conn, data), eventsString(evs), env.b.FrameLenNth(s.key, s.nth)
 }
 
 func transportPath(out *bufio.Writer, r *rand.Rand, thorough bool) (n int, slowest time.Duration) {
+	bad := 0
 	for _, s := range tscenarios() {
 		s := s
+		if bad >= 6 {
+			break // every failing case costs its watchdogs; a handful is enough for the replay
+		}
 		_, _, flen := runT(&s, -1)
 		if flen == 0 {
 			fmt.Fprintf(out, "tp %s 0 0\tsetup-failed - - -\n", s.name)
@@ -329,6 +389,13 @@ func transportPath(out *bufio.Writer, r *rand.Rand, thorough bool) (n int, slowe
 			impl, trace, _ := runT(&s, kk)
 			if d := time.Since(t0); d > slowest {
 				slowest = d
+			}
+			if f := strings.Fields(impl); len(f) == 4 && (f[1] != "ok" || f[0] == "hang") {
+				if bad++; bad >= 6 {
+					fmt.Fprintf(out, "tp %s %d %d\t%s\n", s.name, flen, k, impl)
+					fmt.Fprintf(out, "tt %s %d %s\taccept\n", s.name, k, trace)
+					break
+				}
 			}
 			fmt.Fprintf(out, "tp %s %d %d\t%s\n", s.name, flen, k, impl)
 			fmt.Fprintf(out, "tt %s %d %s\taccept\n", s.name, k, trace)
